@@ -1,1 +1,75 @@
 // Kani contract harnesses for /repo/parquet/src/arrow/arrow_reader/selection/ranges.rs (child module: sees private items via super::)
+use super::*;
+
+const RUN_MAX: usize = usize::MAX >> 4;
+
+fn any_runs<const N: usize>() -> [RowSelector; N] {
+    let mut a = [RowSelector { row_count: 0, skip: false }; N];
+    let mut i = 0;
+    while i < N {
+        let c: usize = kani::any(); kani::assume(c >= 1 && c <= RUN_MAX);       // RowSelection invariant: no empty runs
+        a[i] = RowSelector { row_count: c, skip: kani::any() }; i += 1;
+    }
+    a
+}
+/// does the selection select some row position in [lo, hi)   (hi = None: to the end)
+fn selects_in(v: &[RowSelector], lo: usize, hi: Option<usize>) -> bool {
+    let mut start = 0usize;
+    for s in v {
+        let end = start + s.row_count;
+        let below_hi = match hi { Some(h) => start < h, None => true };
+        if !s.skip && end > lo && below_hi { return true; }
+        start = end;
+    }
+    false
+}
+
+// Contract (C06): scan_ranges_from_selectors(selectors, pages) for an offset index whose pages start at strictly
+// increasing row indexes, the first at row 0 (the writer's invariant: pages delimit the rows of the row group), and a
+// run-length selection without empty runs: the result is, in page order and without duplicates, exactly the byte
+// ranges offset .. offset + compressed_page_size of those pages whose row range [first_row_i, first_row_(i+1)) (last
+// page: unbounded) contains at least one selected row position -- a page is fetched IFF it has a selected row.
+macro_rules! scan_ranges_unit {
+    ($name:ident, $pages:expr, $runs:expr, $unw:expr) => {
+        #[kani::proof]
+        #[kani::unwind($unw)]
+        fn $name() {
+            let sel = any_runs::<$runs>();
+            let mut pages: [PageLocation; $pages] = std::array::from_fn(|_| PageLocation { offset: 0, compressed_page_size: 0, first_row_index: 0 });
+            let mut i = 0;
+            while i < $pages {
+                let off: i64 = kani::any(); let sz: i32 = kani::any(); let fr: i64 = kani::any();
+                kani::assume(off >= 0 && off <= i64::MAX >> 1 && sz >= 0);
+                kani::assume(if i == 0 { fr == 0 } else { fr > pages[i - 1].first_row_index && fr <= (RUN_MAX as i64) });
+                pages[i] = PageLocation { offset: off, compressed_page_size: sz, first_row_index: fr };
+                i += 1;
+            }
+            let out = scan_ranges_from_selectors(sel.iter().copied(), &pages);
+            // expected: filter pages by "has a selected row"
+            let mut k = 0usize; let mut i = 0;
+            while i < $pages {
+                let lo = pages[i].first_row_index as usize;
+                let hi = if i + 1 < $pages { Some(pages[i + 1].first_row_index as usize) } else { None };
+                if selects_in(&sel, lo, hi) {
+                    assert!(k < out.len());
+                    assert!(out[k].start == pages[i].offset as u64);
+                    assert!(out[k].end == pages[i].offset as u64 + pages[i].compressed_page_size as u64);
+                    k += 1;
+                }
+                i += 1;
+            }
+            assert!(out.len() == k);
+            kani::cover!(k == $pages);
+            kani::cover!(k == 0);
+            kani::cover!(k == 1 && $pages > 1 && out[0].start == pages[$pages - 1].offset as u64 && pages[0].offset != pages[$pages - 1].offset);
+        }
+    };
+}
+// @unit name=scan_ranges_2pages_2runs props=C06 kind=bounded bound=2_pages_2_runs_(lengths_unbounded) fns=scan_ranges_from_selectors timeout=600 mem=4 tier=thorough confirmed=no_(not_seen_to_finish_under_load)
+scan_ranges_unit!(scan_ranges_2pages_2runs, 2, 2, 7);
+// @unit name=scan_ranges_3pages_2runs props=C06 kind=bounded bound=3_pages_2_runs_(lengths_unbounded) fns=scan_ranges_from_selectors timeout=900 mem=4 tier=thorough confirmed=no_(not_seen_to_finish_under_load)
+scan_ranges_unit!(scan_ranges_3pages_2runs, 3, 2, 8);
+// @unit name=scan_ranges_3pages_3runs props=C06 kind=bounded bound=3_pages_3_runs_(lengths_unbounded) fns=scan_ranges_from_selectors tier=thorough timeout=1800 mem=8 confirmed=no_(not_seen_to_finish_under_load)
+scan_ranges_unit!(scan_ranges_3pages_3runs, 3, 3, 9);
+// @unit name=scan_ranges_1page_3runs props=C06 kind=bounded bound=1_page_3_runs_(lengths_unbounded) fns=scan_ranges_from_selectors timeout=600 mem=4 tier=thorough confirmed=no_(not_seen_to_finish_under_load)
+scan_ranges_unit!(scan_ranges_1page_3runs, 1, 3, 7);
